@@ -9,7 +9,7 @@ Open Scope N_scope.
    are normalised before use *)
 Ltac nrw H :=
   let E := fresh "E" in
-  pose proof H as E; unfold byte, bytes in E; unfold byte, bytes; rewrite E; clear E.
+  pose proof H as E; unfold bytes, byte in E; unfold bytes, byte; rewrite E; clear E.
 
 (* ---- nested induction on literals ---- *)
 Section ValueInd.
@@ -235,7 +235,7 @@ Section WithVars.
   Proof.
     intros body str fuel rest Hs Hf. destruct fuel as [|f]; [lia|].
     cbn [parse_value app]. rewrite <- app_assoc. cbn [app].
-    cbn [skip_ws is_jws N.eqb Pos.eqb orb]. rewrite Hs. reflexivity.
+    cbn [skip_ws is_jws N.eqb Pos.eqb orb]. nrw Hs. reflexivity.
   Qed.
 
   Theorem all_good : forall v, good v.
@@ -320,9 +320,10 @@ Section WithVars.
           { cbn [map]. destruct xs; cbn [map join_comma]; rewrite Hpr; eexists; reflexivity. }
           destruct Hhead as (t & Hhead). rewrite Hhead at 1.
           rewrite (skip_ws_start _ _ Hws). cbn [eat]. rewrite E93.
-          rewrite (elems_parse (x :: xs) ltac:(discriminate) HF f rest).
-          { reflexivity. }
-          simpl in Hf. rewrite app_length in Hf. simpl in Hf. lia.
+          assert (Hbound : (2 * length (join_comma (map print (x :: xs))) + 1 <= f)%nat).
+          { clear -Hf. cbn [length] in Hf. rewrite app_length in Hf. cbn [length] in Hf. lia. }
+          nrw (elems_parse (x :: xs) ltac:(discriminate) HF f rest Hbound).
+          reflexivity.
     - (* object *)
       rewrite print_obj, den_obj. split.
       + eexists _, _. split; reflexivity.
@@ -342,9 +343,10 @@ Section WithVars.
           { cbn [map]. destruct xs; cbn [map join_comma]; unfold member_text, wrap_quotes; cbn [fst app]; eexists; reflexivity. }
           destruct Hhead as (t & Hhead). rewrite Hhead at 1.
           cbn [skip_ws is_jws N.eqb Pos.eqb orb eat].
-          rewrite (members_parse ((k, x) :: xs) ltac:(discriminate) HF f rest).
-          { reflexivity. }
-          simpl in Hf. rewrite app_length in Hf. simpl in Hf. lia.
+          assert (Hbound : (2 * length (join_comma (map member_text ((k, x) :: xs))) + 1 <= f)%nat).
+          { clear -Hf. cbn [length] in Hf. rewrite app_length in Hf. cbn [length] in Hf. lia. }
+          nrw (members_parse ((k, x) :: xs) ltac:(discriminate) HF f rest Hbound).
+          reflexivity.
   Qed.
 End WithVars.
 
